@@ -239,6 +239,16 @@ ORDINARY = [
     let a = Bump::new(); let mut kept = Vec::new_in(&a);
     { let src = std::vec![1u8, 2]; kept.extend_from_slice(&src); kept.extend_from_slice_copy(&src); kept.extend(src.iter().copied()); kept.extend_from_slices_copy(&[&src[..], &src[..]]); }
     touch(&kept);"""),
+    ("copy_outlives_source_extend_by_ref", """
+    let a = Bump::new(); let mut kept: Vec<u8> = Vec::new_in(&a);
+    { let src = std::vec![1u8, 2]; kept.extend(&src); kept.extend(src.iter()); }
+    fn f<'b>(dst: &mut Vec<'b, u32>, src: &[u32]) { dst.extend(src); dst.extend(src.iter()); dst.extend_from_slice(src); }
+    let mut k2: Vec<u32> = Vec::new_in(&a); { let s2 = std::vec![1u32]; f(&mut k2, &s2); }
+    let mut t = BString::new_in(&a);
+    { let s3 = std::string::String::from("ab"); t.extend(s3.chars()); t.extend(s3.split('a')); let cs = std::vec!['x']; t.extend(cs.iter()); t.push_str(&s3); }
+    fn g<'b>(dst: &mut BString<'b>, src: &str) { dst.push_str(src); dst.extend(src.chars()); dst.extend(std::iter::once(src)); }
+    g(&mut t, "q");
+    touch(&kept); touch(&k2); touch(&t);"""),
     ("copy_outlives_source_vec_from_iter_in", """
     let a = Bump::new(); let kept = { let src = std::vec![1u8, 2]; Vec::from_iter_in(src.iter().copied(), &a) };
     let kept2 = { let src = std::vec![1u8, 2]; src.iter().copied().collect_in::<Vec<u8>>(&a) }; touch(&kept); touch(&kept2);"""),
